@@ -252,6 +252,8 @@ def gen_module(rng, max_items=6, want_imports=True, final_newline=None, prologue
             if rng.random() < 0.25:
                 line += rng.choice(["  # trailing", " #c", "  # é", "  # type: int", "  # type: ignore", " # type: (int) -> str",
                                     "  # \U0001f389", "  # a\x0cb\u2028c"])
+            if rng.random() < 0.06 and not stmts[0].startswith(("import ", "from ")):
+                line = rng.choice(["\f", "\f\f", " \f", "\f "]) .rstrip(" ") + line if False else rng.choice(["\f", "\f\f"]) + line
             parts.append(line + "\n")
             i += k
         parts.append(gen_filler(rng))
@@ -281,19 +283,19 @@ def char_col(line: str, byte_off: int) -> int:
     return len(line.encode("utf-8")[:byte_off].decode("utf-8", errors="replace"))
 
 
-def decorator_at(lines, d):
+def decorator_at(lines, d, ws_to_stmt=True):
     """(1-based line, 0-based char col) of the '@' that introduces decorator expression node `d`: the first token of
     its line; a parenthesised expression may start on a later line than its '@'."""
     ln = d.lineno
     cc = char_col(lines[ln - 1], d.col_offset)
     j = lines[ln - 1].rfind("@", 0, cc)
     if j >= 0 and not lines[ln - 1][:j].strip(" \t\f"):
-        return ln, j
+        return ln, 0 if ws_to_stmt else j
     while ln > 1:
         ln -= 1
         st = lines[ln - 1].lstrip(" \t\f")
         if st.startswith("@"):
-            return ln, len(lines[ln - 1]) - len(st)
+            return ln, 0 if ws_to_stmt else len(lines[ln - 1]) - len(st)
     raise AssertionError((lines[d.lineno - 1], cc))
 
 
@@ -312,5 +314,8 @@ def toplevel_starts(text: str):
         if decos:
             out.append(decorator_at(lines, decos[0]))
         else:
-            out.append((ln, char_col(lines[ln - 1], co)))
+            cc = char_col(lines[ln - 1], co)
+            if not isinstance(n, (ast.Import, ast.ImportFrom)) and cc and not lines[ln - 1][:cc].strip(" \t\f"):
+                cc = 0      # whitespace (a form feed) in front of the first token belongs to the statement
+            out.append((ln, cc))
     return out, tree
